@@ -15,20 +15,38 @@ canonical form: the stored (= printed) path is the given string, and parsing the
 gives the same value again. -/
 theorem C06_local_roundtrip (s a : Str) (h : parseLocal s = some a) :
     a = s ∧ parseLocal a = some a := by
-  have e : a = s := by
-    unfold parseLocal at h
-    split at h
-    · cases h
-    · split at h
-      · cases h
-      · simp only at h
-        split at h
-        · cases h
-        · rename_i hc
-          simp only [ne_eq, Decidable.not_not] at hc
-          cases h
-          exact hc
+  have e : a = s := (parseLocal_some s a h).1
   exact ⟨e, by rw [e]; rw [e] at h; exact h⟩
+
+/-- **C06_local_resolve_canonical.** Resolving one canonical local source against another
+(`ResolveRelativeSource` on two `LocalSource`s, with the repair that turns a result of `.` or
+`..` into `./` or `../`) yields a path that is again in canonical form: its printed form is
+accepted by `ParseLocalSource` and parses to the same value. -/
+theorem C06_local_resolve_canonical (a b : Str) (ha : parseLocal a = some a)
+    (hb : parseLocal b = some b) :
+    parseLocal (resolveLocalLocal a b) = some (resolveLocalLocal a b) := by
+  obtain ⟨_, _, ha1, ha2⟩ := parseLocal_some a a ha
+  obtain ⟨_, _, hb1, hb2⟩ := parseLocal_some b b hb
+  obtain ⟨hane, haabs⟩ := local_start a ha2
+  obtain ⟨hbne, _⟩ := local_start b hb2
+  have hj : pathJoin a b = pathClean (a ++ '/' :: b) := by
+    unfold pathJoin; simp only [hane, hbne, if_false]
+  rw [resolveLocalLocal_eq, hj]
+  apply parseLocal_relocalise
+  · cases a with
+    | nil => exact absurd rfl hane
+    | cons c r => simpa [isAbs] using haabs
+  · have h1 : a.any badLocalChar = false := ha1
+    have h2 : b.any badLocalChar = false := hb1
+    simp only [List.any_append, List.any_cons, h1, h2]
+    decide
+
+/-- the result of a local resolution is accepted as it stands: round trip of the resolved
+address through its printed form -/
+theorem C06_local_resolve_roundtrip (a b : Str) (ha : parseLocal a = some a)
+    (hb : parseLocal b = some b) :
+    ∃ r, resolveRelative (.loc a) (.loc b) = some (.loc r) ∧ parseLocal r = some r :=
+  ⟨resolveLocalLocal a b, rfl, C06_local_resolve_canonical a b ha hb⟩
 
 /-- **C06_normalize_idem.** A normalised sub-path is a fixed point of `normalizeSubpath`
 (so the sub-path printed from an address is accepted verbatim when parsed back). -/
@@ -117,6 +135,10 @@ theorem C06_cex_split_sub_scheme :
 /-- non-vacuity -/
 example : parseLocal "./a/b".toList = some "./a/b".toList := by decide
 example : parseLocal "./a/../b".toList = none := by decide
+example : resolveLocalLocal "./a".toList "../".toList = "./".toList := by decide
+example : resolveLocalLocal "./a".toList "../../".toList = "../".toList := by decide
+example : resolveLocalLocal "./a".toList "../b".toList = "./b".toList := by decide
+example : resolveLocalLocal "../a".toList "../../b".toList = "../../b".toList := by decide
 example : splitSubPath "example.com/ns/name/aws//modules/vpc".toList
     = ("example.com/ns/name/aws".toList, "modules/vpc".toList) := by decide
 example : splitSubPath "git::https://example.com/repo.git//sub/dir?ref=v1".toList
